@@ -27,7 +27,11 @@ pub fn gen(r: &mut Rng) -> Value {
         if inc == 1 || inc == 2 {
             lines.insert(r.below(lines.len() + 1), "!include_files ./inc.ds".to_string());
         }
-        return json!({"script": lines.join("\n"), "mode": 3, "inc": inc});
+        return json!({"script": lines.join("\n"), "mode": 3, "inc": inc, "short": r.chance(1, 2)});
+    }
+    if r.chance(1, 12) {
+        // information forms: they succeed whatever follows
+        return json!({"script": "", "mode": 5, "flag": r.pick(&["--version", "--help", "-h"]), "extra": r.pick(&["", "x", "-e"])});
     }
     if r.chance(1, 6) {
         // file form followed by extra words (script arguments)
@@ -61,13 +65,25 @@ pub fn run(input: &Value) -> Option<Value> {
         1 => Proc::new(&bin).arg("-e").arg(script).output(),
         2 => Proc::new(&bin).arg("--eval").arg(script).output(),
         4 => Proc::new(&bin).arg(&fpath).args(input["extra"].as_str().unwrap_or("x").split(' ')).output(),
-        _ => Proc::new(&bin).arg("--lint").arg(&fpath).output(),
+        5 => {
+            let mut p = Proc::new(&bin);
+            p.arg(input["flag"].as_str().unwrap_or("--version"));
+            if let Some(x) = input["extra"].as_str() {
+                if !x.is_empty() {
+                    p.arg(x);
+                }
+            }
+            p.output()
+        }
+        _ => Proc::new(&bin).arg(if input["short"].as_bool().unwrap_or(false) { "-l" } else { "--lint" }).arg(&fpath).output(),
     }
     .ok()?;
     let _ = std::fs::remove_dir_all(&dir);
     let stdout = String::from_utf8_lossy(&out.stdout).to_string();
     let ok_status = out.status.success();
-    let expect_ok = if mode == 3 {
+    let expect_ok = if mode == 5 {
+        true
+    } else if mode == 3 {
         // accepted exactly when it parses and every label, command and output is lower-case
         match lib_parse {
             Err(_) => false,
